@@ -169,6 +169,8 @@ func c04Alphabet(quick bool) []SeqOp {
 		op(0, L(0, 1, 1, 0, 4, 1, 1)),                      // re-enterable holder on a counting key (depth 2 fills it)
 		op(0, hapi.Cmd{Type: 2, Key: 1, Id: 1, Rcount: 1}), // releases one level: a slot becomes free although the holder stays
 		op(1, L(0, 1, 8, 6, 4, 1, 0)),                      // fits into that slot
+		op(1, withTF(L(0, 1, 19, 6, 4, 2, 5), 0x10)),       // fits next to a Count-2 holder, priority EQUAL to a queued exclusive request's: must not pass it
+		op(1, withTF(L(0, 1, 20, 6, 4, 2, 0), 0x10)),       // the same with priority 0 (equal to every unflagged request)
 		tick(1*sec), tick(3*sec),
 	)
 	if !quick {
